@@ -95,4 +95,6 @@ func genericPack(c *Ctx) {
 	ruleWalkCut(c, "G-WALK-CUT", pkgs, 0)
 	ruleMarkBeforeStateTest(c, "G-MARK-BEFORE-STATE-TEST", pkgs)
 	ruleErrPathUnseen(c, "G-ERR-PATH-UNSEEN", pkgs)
+	ruleComparatorBoth(c, "G-COMPARATOR-BOTH", pkgs)
+	ruleCtorParam(c, "G-CTOR-KEEPS-PARAM", pkgs)
 }
